@@ -46,6 +46,9 @@ def load(prop):
 
 def execute(prop, seed=None, replay=None, capture=False):
     mod = load(prop)
+    if hasattr(mod, "modules"):
+        mod.modules()  # make sure the package under test is imported ...
+    sut.reset_module_state()  # ... and starts every run from its import-time state
     ch = Choices(seed=seed, replay=replay)
     tr = Trace(capture=capture)
     st = Stats()
